@@ -271,7 +271,7 @@ func conform(t reflect.Type, it *item, tg ftag) string {
 			if ft.ignored {
 				continue
 			}
-			if ft.tail {
+			if ft.tail && f.Type.Elem().Kind() != reflect.Uint8 { // a []byte "tail" field is one ordinary string
 				for ; k < len(it.children); k++ {
 					if why := conform(f.Type.Elem(), it.children[k], ftag{}); why != "" {
 						return why
